@@ -1,10 +1,10 @@
 package main
 
 import (
-	"math"
-	"go/token"
 	"fmt"
+	"go/token"
 	"go/types"
+	"math"
 	"strings"
 
 	"golang.org/x/tools/go/ssa"
